@@ -24,7 +24,9 @@ CONSTANTS
     MaxLen,       \* largest array length explored
     MaxMembers,   \* members per constructed struct
     MaxTypes,     \* constructed types per behaviour
-    Widths,       \* scalar widths offered to the constructor
+    Scalars,      \* scalar type references offered to the constructor
+    Forms,        \* member forms offered to the constructor
+    PayloadHigh,  \* FALSE: payload bytes 1..120; TRUE: 128..247 (sign bits set)
     FixN, LimN    \* extents used for constructed fixed / limited arrays
 
 VARIABLES
@@ -50,15 +52,17 @@ vars  == <<phase, env, lay, cur, root, todo, frames, outL, outB, role, walk, k, 
 (* ------------------------------------------------------------------------ *)
 (* Schema construction                                                      *)
 (* ------------------------------------------------------------------------ *)
-ElemTypes == {Int(w) : w \in Widths} \cup {Ref(i) : i \in 1..Len(env)}
+ElemTypes == Scalars \cup {Ref(i) : i \in 1..Len(env)}
 
 Alphabet ==
-    {Plain(t) : t \in ElemTypes} \cup {Opt(t) : t \in ElemTypes}
-    \cup {Fixed(t, FixN) : t \in ElemTypes \cup {Byte}}
-    \cup {Dyn(t) : t \in ElemTypes \cup {Byte}}
-    \cup {Lim(t, LimN) : t \in ElemTypes \cup {Byte}}
-    \cup {Greedy(t) : t \in ElemTypes \cup {Byte}}
-    \cup {Ext(t, c) : t \in ElemTypes \cup {Byte}, c \in 1..Len(cur)}
+    {m \in
+        {Plain(t) : t \in ElemTypes} \cup {Opt(t) : t \in ElemTypes}
+        \cup {Fixed(t, FixN) : t \in ElemTypes \cup {Byte}}
+        \cup {Dyn(t) : t \in ElemTypes \cup {Byte}}
+        \cup {Lim(t, LimN) : t \in ElemTypes \cup {Byte}}
+        \cup {Greedy(t) : t \in ElemTypes \cup {Byte}}
+        \cup {Ext(t, c) : t \in ElemTypes \cup {Byte}, c \in 1..Len(cur)}
+     : m.f \in Forms}
 
 SchemaInit ==
     /\ phase = "schema"
@@ -84,6 +88,23 @@ CloseAndContinue ==
     /\ cur' = <<>>
     /\ UNCHANGED <<phase, root, evars>>
 
+\* the members collected so far can also be closed as a UNION (arms = the
+\* members, discriminators 1, 4, 7, ...) if all of them are plain and fixed
+UnionOf(ms) == UnionDef([j \in 1..Len(ms) |-> Arm(3 * j - 2, ms[j].t)])
+CanBeUnion(ms) ==
+    /\ ms # <<>> /\ Len(ms) <= 3
+    /\ \A j \in 1..Len(ms) : ms[j].f = "plain"
+    /\ LegalUnion(Kinds(lay), UnionOf(ms).arms)
+
+CloseAndContinueAsUnion ==
+    /\ phase = "schema"
+    /\ CanBeUnion(cur)
+    /\ Len(env) - Len(Inner) < MaxTypes - 1
+    /\ env' = Append(env, UnionOf(cur))
+    /\ lay' = Append(lay, UnionLay(lay, UnionOf(cur).arms))
+    /\ cur' = <<>>
+    /\ UNCHANGED <<phase, root, evars>>
+
 Tk(op, t, a, n, m) == [op |-> op, t |-> t, a |-> a, n |-> n, m |-> m]
 ValTask(t) == Tk("val", t, 0, 0, 0)
 
@@ -93,6 +114,18 @@ CloseType ==
     /\ cur # <<>>
     /\ env' = Append(env, StructDef(cur))
     /\ lay' = Append(lay, StructLay(lay, cur))
+    /\ cur' = <<>>
+    /\ root' = Len(env) + 1
+    /\ phase' = "enc"
+    /\ todo' = << ValTask(Ref(Len(env) + 1)) >>
+    /\ UNCHANGED <<frames, outL, outB, role, walk, k, gend, ust>>
+
+\* ... or encode a message of the union built from the collected members
+CloseTypeAsUnion ==
+    /\ phase = "schema"
+    /\ CanBeUnion(cur)
+    /\ env' = Append(env, UnionOf(cur))
+    /\ lay' = Append(lay, UnionLay(lay, UnionOf(cur).arms))
     /\ cur' = <<>>
     /\ root' = Len(env) + 1
     /\ phase' = "enc"
@@ -110,7 +143,7 @@ Zeros(n) == [j \in 1..n |-> 0]
 
 \* payload of the q-th scalar: non-zero, pairwise distinct bytes, most
 \* significant byte never 0x7f/0xff (no NaN bit patterns for floats)
-Payload(q, w) == [j \in 1..w |-> ((q * 29 + j * 7) % 120) + 1]
+Payload(q, w) == [j \in 1..w |-> ((q * 29 + j * 7) % 120) + (IF PayloadHigh THEN 128 ELSE 1)]
 
 RoleSeq(kind, w) == [j \in 1..w |-> <<kind, w, j>>]
 PadRole(n) == [j \in 1..n |-> <<"p", 1, 1>>]
@@ -322,8 +355,8 @@ Init ==
 
 Next ==
     \/ \E m \in Alphabet : AddMember(m)
-    \/ CloseAndContinue
-    \/ CloseType
+    \/ CloseAndContinue \/ CloseAndContinueAsUnion
+    \/ CloseType \/ CloseTypeAsUnion
     \/ EncNext
 
 Spec == Init /\ [][Next]_vars
